@@ -1,4 +1,5 @@
 import IndicatorVerif.Props.C18Tac
+import IndicatorVerif.Model.StrategyOps
 /-
   C18 — scale covariance, hand-proved part (the generated per-indicator theorems are in C18Gen.lean):
   * the indicators whose formulas contain sign tests (RSI, Stochastic RSI, MFI);
@@ -144,5 +145,53 @@ theorem sign_scale (k : ℝ) (hk : 0 < k) (a : ℝ) : Arith.gt (k * a) 0 = Arith
 theorem stop_loss_test_scale (k : ℝ) (hk : 0 < k) (closing purchase pct : ℝ) :
     (k * closing ≤ (k * purchase) * (1 - pct)) ↔ (closing ≤ purchase * (1 - pct)) := by
   constructor <;> intro h <;> nlinarith
+
+/-! ### outcome -/
+
+/-- with every price multiplied by k > 0 the portfolio holds 1/k as many shares and is worth the same -/
+theorem outcomeFrom_scale (k : ℝ) (hk : 0 < k) (values : List ℝ) (actions : List Action) (balance shares : ℝ) :
+    StratOps.outcomeFrom balance (shares / k) (values.map (fun v => k * v)) actions
+      = StratOps.outcomeFrom balance shares values actions := by
+  induction values generalizing actions balance shares with
+  | nil => simp [StratOps.outcomeFrom]
+  | cons v vt ih =>
+    cases actions with
+    | nil => simp [StratOps.outcomeFrom]
+    | cons a at_ =>
+      have hk' := hk.ne'
+      have hs : (0 < shares / k) ↔ (0 < shares) := by
+        constructor
+        · intro h; have := mul_pos h hk; rwa [div_mul_cancel₀ _ hk'] at this
+        · intro h; exact div_pos h hk
+      simp only [List.map_cons, StratOps.outcomeFrom, arith_gt, arith_nat, Nat.cast_zero, Nat.cast_one, div_eq, mul_eq, add_eq, sub_eq]
+      by_cases h1 : 0 < balance ∧ a = Action.buy
+      · simp only [h1, and_self, if_true]
+        have e : balance / (k * v) = (balance / v) / k := by rw [div_div, mul_comm]
+        rw [e, ih]
+        congr 1
+        by_cases hv : v = 0
+        · simp [hv]
+        · field_simp
+      · simp only [h1, if_false]
+        by_cases h2 : 0 < shares ∧ a = Action.sell
+        · have h2' : 0 < shares / k ∧ a = Action.sell := ⟨hs.mpr h2.1, h2.2⟩
+          simp only [h2, h2', and_self, if_true]
+          have e : shares / k * (k * v) = shares * v := by field_simp
+          rw [e]
+          have := ih at_ (shares * v) 0
+          simp only [zero_div] at this
+          rw [this]
+          simp
+        · have h2' : ¬ (0 < shares / k ∧ a = Action.sell) := fun h => h2 ⟨hs.mp h.1, h.2⟩
+          simp only [h2, h2', if_false]
+          rw [ih]
+          congr 1
+          field_simp
+
+/-- **The outcome of a recommendation stream does not depend on the currency unit** -/
+theorem outcome_scale_invariant (k : ℝ) (hk : 0 < k) (values : List ℝ) (actions : List Action) :
+    StratOps.outcome (values.map (fun v => k * v)) actions = StratOps.outcome values actions := by
+  have := outcomeFrom_scale k hk values actions (Arith.nat 1) (Arith.nat 0)
+  simpa [StratOps.outcome] using this
 
 end C18
